@@ -6,6 +6,8 @@ mod grammar;
 mod parser;
 mod sink;
 mod token_set;
+#[cfg(capy_verif)]
+pub mod verif;
 
 #[cfg(test)]
 mod tests;
